@@ -2634,6 +2634,12 @@ static Node *new_sub(Node *lhs, Node *rhs, Token *tok) {
   if (lhs->ty->base && rhs->ty->base) {
     Node *node = new_binary(ND_SUB, lhs, rhs, tok);
     node->ty = ty_long;
+
+    // The size of a VLA element is known only at run time.
+    if (lhs->ty->base->kind == TY_VLA) {
+      Node *size = new_cast(new_var_node(lhs->ty->base->vla_size, tok), ty_long);
+      return new_binary(ND_DIV, node, size, tok);
+    }
     return new_binary(ND_DIV, node, new_num(lhs->ty->base->size, tok), tok);
   }
 
